@@ -21,6 +21,14 @@ type gen struct {
 	outs   []string
 	feat   map[string]bool
 	snapN  int
+	adds   []*pendingAdd // AddReplica calls that are inside factory.Create
+}
+
+type pendingAdd struct {
+	addr string
+	host string
+	gate chan struct{}
+	done chan error
 }
 
 func full(h string) string { return "tcp://" + h + ":9502" }
@@ -280,6 +288,11 @@ func (g *gen) doAdd() {
 	}
 	h := im.hosts[g.rng.Intn(min(len(im.hosts), im.rf+2))]
 	a := full(h)
+	for _, p := range g.adds {
+		if p.addr == a {
+			return
+		}
+	}
 	var wo string
 	for _, r := range g.replicas() {
 		if r.Mode == types.WO {
@@ -324,6 +337,115 @@ func (g *gen) doAdd() {
 	im.w.ModeFail, im.w.NewSnapFail = nil, nil
 	g.noteNewBackends()
 	g.emit(fmt.Sprintf("add %s | %s %s %s %s %s %s", a, takeover, b01(createOk), orDash(fails), b01(newSnapOk), b01(setWoOk), g.ckEnv()),
+		classify(err, "is already added", "can only have one WO", "can't add", "Bad response", "Bad status")+"")
+	g.feat["add"] = true
+}
+
+// takeoverAnswer prepares what hasGreaterRevisionCount will see for the newcomer h and returns it
+func (g *gen) takeoverAnswer(h string) string {
+	im := g.im
+	a := full(h)
+	var wo string
+	for _, r := range g.replicas() {
+		if r.Mode == types.WO {
+			wo = r.Address
+		}
+	}
+	takeover := "-"
+	r := g.rep(h)
+	if wo != "" {
+		woRev := im.w.Reps[wo].Rev
+		if g.rng.Float64() < 0.4 {
+			r.Rev = woRev + 1 + int64(g.rng.Intn(3))
+		} else {
+			r.Rev = woRev - int64(g.rng.Intn(2))
+			if r.Rev < 1 {
+				r.Rev = 1
+			}
+		}
+		takeover = b01(r.Rev > woRev)
+		if g.rng.Float64() < 0.08 {
+			im.w.Script[a+":http:GET:"] = "err"
+			takeover = "0"
+		}
+		g.feat["add-with-wo"] = true
+		if takeover == "1" {
+			g.feat["takeover"] = true
+		}
+	}
+	return takeover
+}
+
+// doAddPre starts an AddReplica and lets it run up to factory.Create, which the controller calls
+// with its lock released; other requests are served while it sits there.
+func (g *gen) doAddPre() {
+	im := g.im
+	if g.hasErrBackend() || len(g.adds) >= 2 {
+		return
+	}
+	h := im.hosts[g.rng.Intn(min(len(im.hosts), im.rf+2))]
+	a := full(h)
+	for _, p := range g.adds {
+		if p.addr == a {
+			return
+		}
+	}
+	im.w.Script = map[string]string{}
+	takeover := g.takeoverAnswer(h)
+	g.rep(h).Mode = ""
+	p := &pendingAdd{addr: a, host: h, gate: make(chan struct{}), done: make(chan error, 1)}
+	im.w.SetGate(a, p.gate)
+	im.w.ResetLog()
+	go func() { p.done <- im.c.AddReplica(a) }()
+	res := ""
+	select {
+	case <-im.w.Entered:
+		res = "ok"
+		g.adds = append(g.adds, p)
+		g.feat["add-in-create"] = true
+	case err := <-p.done:
+		im.w.SetGate(a, nil)
+		res = classify(err, "is already added", "can only have one WO", "can't add", "Bad response", "Bad status")
+		if res == "ok" {
+			res = "returned-early"
+		}
+	}
+	im.c.Lock()
+	im.c.Unlock()
+	g.emit(fmt.Sprintf("addpre %s | %s", a, takeover), res)
+}
+
+// doAddPost lets one pending AddReplica return from factory.Create and finish.
+func (g *gen) doAddPost() {
+	im := g.im
+	if len(g.adds) == 0 || g.hasErrBackend() {
+		return
+	}
+	idx := g.rng.Intn(len(g.adds))
+	p := g.adds[idx]
+	g.adds = append(g.adds[:idx], g.adds[idx+1:]...)
+	a := p.addr
+	if len(g.replicas()) > 0 {
+		g.feat["add-overlap"] = true
+	}
+	im.w.Script = map[string]string{}
+	takeover := g.takeoverAnswer(p.host)
+	createOk := g.rng.Float64() > g.pFault*0.6
+	im.w.NoCreate = map[string]bool{a: !createOk}
+	fails := g.pickFailsKeep(g.nonErrBackends(), "Snapshot", 1-g.pFault)
+	newSnapOk := g.rng.Float64() < 0.95
+	setWoOk := g.rng.Float64() < 0.96
+	im.w.NewSnapFail = map[string]bool{a: !newSnapOk}
+	im.w.ModeFail = map[string][2]bool{a: {!setWoOk, false}}
+	g.snapN++
+	g.ckFaults(g.pFault * 0.5)
+	im.w.ResetLog()
+	close(p.gate)
+	err := <-p.done
+	im.w.SetGate(a, nil)
+	im.w.ModeFail, im.w.NewSnapFail = nil, nil
+	g.noteNewBackends()
+	g.emit(fmt.Sprintf("addpost %s | %s %s %s %s %s %s", a, takeover, b01(createOk), orDash(fails), b01(newSnapOk), b01(setWoOk), g.ckEnv()),
 		classify(err, "is already added", "can only have one WO", "can't add", "Bad response", "Bad status")+"")
 	g.feat["add"] = true
 }
@@ -594,12 +716,13 @@ func generate(rng *rand.Rand, steps int, profile string, hosts []string) ([]stri
 	g.lines = append(g.lines, fmt.Sprintf("init %d", rf))
 	g.outs = append(g.outs, "ok")
 	g.feat[fmt.Sprintf("rf%d", rf)] = true
-	w := map[string]int{"reg": 10, "start": 6, "add": 12, "verify": 12, "rm": 3, "setmode": 3, "w": 18, "sync": 4, "unmap": 3, "r": 10, "snap": 5, "resize": 3, "mon": 8}
+	w := map[string]int{"reg": 10, "start": 6, "add": 12, "verify": 12, "rm": 3, "setmode": 3, "w": 18, "sync": 4, "unmap": 3, "r": 10, "snap": 5, "resize": 3, "mon": 8, "addpre": 4, "addpost": 6}
 	switch profile {
 	case "faults":
 		w["w"], w["sync"], w["unmap"], w["r"] = 30, 8, 6, 14
 	case "membership":
-		w["add"], w["verify"], w["rm"], w["setmode"], w["mon"] = 18, 16, 6, 6, 12
+		w["add"], w["verify"], w["rm"], w["setmode"], w["mon"] = 14, 16, 6, 6, 12
+		w["addpre"], w["addpost"] = 10, 12
 	case "reads":
 		w["r"], w["add"], w["verify"] = 30, 14, 14
 	case "election":
@@ -607,7 +730,7 @@ func generate(rng *rand.Rand, steps int, profile string, hosts []string) ([]stri
 	case "snapshots":
 		w["snap"], w["resize"], w["add"], w["verify"] = 18, 8, 14, 14
 	}
-	keys := []string{"reg", "start", "add", "verify", "rm", "setmode", "w", "sync", "unmap", "r", "snap", "resize", "mon"}
+	keys := []string{"reg", "start", "add", "verify", "rm", "setmode", "w", "sync", "unmap", "r", "snap", "resize", "mon", "addpre", "addpost"}
 	g.pFault = 0.12
 	if rng.Float64() < 0.65 {
 		// prelude: bring the volume up and grow the membership with few faults, so that the
@@ -675,6 +798,10 @@ func generate(rng *rand.Rand, steps int, profile string, hosts []string) ([]stri
 			g.doStart()
 		case "add":
 			g.doAdd()
+		case "addpre":
+			g.doAddPre()
+		case "addpost":
+			g.doAddPost()
 		case "verify":
 			g.doVerify()
 		case "rm":
@@ -717,6 +844,21 @@ func generate(rng *rand.Rand, steps int, profile string, hosts []string) ([]stri
 		}
 	}
 	for g.doMon(true) {
+	}
+	for len(g.adds) > 0 { // no AddReplica is left inside Create
+		for g.hasErrBackend() && g.doMon(false) {
+		}
+		n := len(g.adds)
+		g.doAddPost()
+		if len(g.adds) == n {
+			break
+		}
+		for g.doMon(true) {
+		}
+	}
+	for _, p := range g.adds {
+		close(p.gate)
+		<-p.done
 	}
 	return g.lines, g.outs, g.feat
 }
